@@ -87,7 +87,7 @@ fn spec_text(t: &DynTy, v: &DynVal) -> Option<String> {
 }
 
 fn random_param_ty(rng: &mut Rng) -> DynTy {
-    match rng.below(16) {
+    match rng.below(18) {
         0 => DynTy::Str,
         1 => DynTy::Bool,
         2 => DynTy::Int(true, 32),
@@ -103,7 +103,10 @@ fn random_param_ty(rng: &mut Rng) -> DynTy {
         12 => DynTy::Enum(vec![("ONE".into(), VKind::Unit, DynTy::Unit), ("TWO_2".into(), VKind::Unit, DynTy::Unit)]),
         13 => DynTy::Newtype(Box::new(DynTy::Str)),
         14 => DynTy::Newtype(Box::new(DynTy::F64)),
-        _ => DynTy::Int(false, 16),
+        15 => DynTy::Int(false, 16),
+        // unsigned 64-bit values (hashes, counters; what a JSON reader makes of a non-negative integer in an `any`)
+        16 => DynTy::Int(false, 64),
+        _ => DynTy::Newtype(Box::new(DynTy::Int(false, 64))),
     }
 }
 
